@@ -3,8 +3,8 @@ import re
 
 from . import absint as A
 from .lib import PLUMBING, borrow_root, callee_allow, callers, closure_args_of_call, operand_local, result_split, try_edges
-from .lib_c02 import compatible, discr_edge_sets, region_states, show_facts
-from .lib_c01 import (VALUE_PRESERVING, access_path, always_err_try_edges, bool_switch_of_call, conflict_loop, const_reach, dead_ends, edge_is_rejecting,
+from .lib_c02 import compatible, conflict_loop, discr_edge_sets, position_tests, region_states, show_facts
+from .lib_c01 import (VALUE_PRESERVING, access_path, always_err_try_edges, bool_switch_of_call, const_reach, dead_ends, edge_is_rejecting,
                       enum_switches, ok_return_blocks, option_edges, outermost_fn, resolve_path, sources, Renamed, PRE_FIX_F3_EDITS)
 
 LEVEL = "other"
@@ -112,21 +112,56 @@ def r1_validation_before_insert(ctx):
 
 
 # --------------------------------------------------------------------------- R2
+EDGE_SLOT_WRITE = r"option::Option::<T>::get_or_insert$|option::Option::<T>::get_or_insert_with$|option::Option::<T>::insert$"
+
+
+def _walk(ctx):
+    """The function that walks the trie along the route template and creates the edges, found by role: the one named function
+    in which Option::get_or_insert / get_or_insert_with / insert is applied to a node's `edges` slot.  It must be
+    HttpRouter::insert itself (helpers small enough are inlined there by the engine) or a private function whose only call
+    site is in insert (the whole walk extracted into a helper).  Returns (insert, walk, call term in insert or None) or a
+    string saying why the anchor is lost."""
+    ins = ctx.ds.one(r"^router::HttpRouter::<Context>::insert$")
+    if ins is None:
+        return "router::HttpRouter::insert"
+    hosts = {}
+    for f in ctx.ds.F.values():
+        for bb, t in f.live_calls(EDGE_SLOT_WRITE):
+            p = access_path(f, t["args"][0], VP)
+            if p.path[-1:] == ["edges"] and "HttpRouterEdges" in f.local_ty(operand_local(t["args"][0]) or 0):
+                g = outermost_fn(ctx.ds, f)
+                hosts[g.id] = g
+    if len(hosts) != 1:
+        return "the one function creating trie edges (Option::get_or_insert on a node's `edges`): found in %s" % sorted(hosts)
+    walk = list(hosts.values())[0]
+    if walk is ins:
+        return ins, walk, None
+    cs = callers(ctx.ds, "^" + re.escape(walk.id) + "$")
+    if len(cs) == 1 and cs[0][0] is ins:
+        return ins, walk, cs[0][2]
+    return "trie edges are created in %s, which is not HttpRouter::insert and is called from %s" % (walk.id, sorted(f.id for f, _, _ in cs))
+
+
 def _template_iter_nexts(ins):
-    """next() calls on the iterator over route_path_to_segments(endpoint.path)."""
-    thru = VP + [r"iter::IntoIterator::into_iter$", r"iter::Iterator::by_ref$"]
+    """next() calls on the iterator over route_path_to_segments(endpoint.path): (bb, term, path of the iterator, enumerated?)."""
+    thru = VP + [r"iter::IntoIterator::into_iter$", r"iter::Iterator::by_ref$", r"iter::Iterator::enumerate$"]
     out = []
     for bb, t in ins.live_calls(r"iter::Iterator::next$"):
         p = access_path(ins, t["args"][0], thru)
         if p.is_call(r"^router::route_path_to_segments$") and not p.path:
-            out.append((bb, t, p))
+            out.append((bb, t, p, any(c.endswith("Iterator::enumerate") for c, _ in p.calls)))
     return out
 
 
 def r2_conflict_table(ctx):
     R = ctx.rule("C02.R2", "insert: for each template segment kind the existing edge of the same kind is descended into and the two other kinds panic (3x3); a variable edge with a different "
                  "name panics; insert_var panics on a repeated name (one set per registration); a wildcard followed by more segments panics", floor=27)
-    ins = _ins(ctx, R)
+    w = _walk(ctx)
+    if isinstance(w, str):
+        ctx.lost(R, w)
+        return
+    # `ins` below is the function holding the walk: HttpRouter::insert, or the private helper it hands the root and the template to
+    insert_fn, ins, walk_call = w
     nexts = _template_iter_nexts(ins)
     if not nexts:
         ctx.lost(R, "next() on the iterator over route_path_to_segments(path)")
@@ -135,7 +170,9 @@ def r2_conflict_table(ctx):
     if len(outer) != 1:
         ctx.lost(R, "the loop-driving next() among %d candidates" % len(nexts))
         return
-    obb, ot, op_ = outer[0]
+    obb, ot, op_, enumerated = outer[0]
+    # the element under iteration: next()'s Some payload, or its second component when the iterator is enumerate()d (the first is the position)
+    elem_path = ["as Some", "0", "1"] if enumerated else ["as Some", "0"]
     oe = option_edges(ins, ot["dest"]["l"])
     if oe is None:
         ctx.lost(R, "switch on the template iterator's next()")
@@ -143,7 +180,9 @@ def r2_conflict_table(ctx):
     osw, o_some, o_none = oe
     # the template is the endpoint's own path
     tp = access_path(ins, op_.call()[2]["args"][0], VP)
-    ctx.check(R, "template-is-endpoint.path", tp.kind() == "param" and tp.root[1] == 2 and tp.path == ["path"], "segments come from route_path_to_segments(%r)" % tp, (ins, obb))
+    if walk_call is not None and tp.kind() == "param" and not tp.path and tp.root[1] <= len(walk_call["args"]):
+        tp = access_path(insert_fn, walk_call["args"][tp.root[1] - 1], VP)        # what insert hands to the walk
+    ctx.check(R, "template-is-endpoint.path", tp.fn is insert_fn and tp.kind() == "param" and tp.root[1] == 2 and tp.path == ["path"], "segments come from route_path_to_segments(%r)" % tp, (ins, obb))
     segsw = [s for s in enum_switches(ins, r"^router::PathSegment$") if ins.edge_dominates(osw, o_some, s[0])]
     if len(segsw) != 1:
         ctx.lost(R, "the match on PathSegment inside the loop (%d found)" % len(segsw))
@@ -153,11 +192,11 @@ def r2_conflict_table(ctx):
     okseg = sp.is_call(r"^router::PathSegment::from$") and not sp.path
     if okseg:
         raw = access_path(ins, sp.call()[2]["args"][0], VP)
-        okseg = raw.is_call(r"iter::Iterator::next$") and raw.call()[1] == obb and raw.path == ["as Some", "0"]
+        okseg = raw.is_call(r"iter::Iterator::next$") and raw.call()[1] == obb and raw.path == elem_path
     ctx.check(R, "segment-kind-of-current-template-segment", okseg and sorted(stargets) == sorted(SEG_TO_EDGE), "match on %r; kinds %s" % (sp, sorted(stargets)), (ins, ssb))
     seg_local = sp.root_local()
     # node cursor = root of the receivers of get_or_insert
-    goi = ins.live_calls(r"option::Option::<T>::get_or_insert$|option::Option::<T>::get_or_insert_with$|option::Option::<T>::insert$")
+    goi = ins.live_calls(EDGE_SLOT_WRITE)
     node_roots = set()
     for bb, t in goi:
         p = access_path(ins, t["args"][0], VP)
@@ -284,27 +323,49 @@ def r2_conflict_table(ctx):
             d = "insert_var(_, %r, %r) lies on every path from the arm to the next segment: %s" % (pset, pnm, must)
         ctx.check(R, "%s:variable-name-recorded-once-per-path" % seg, okv, d, (ins, tgt))
         if seg == "VarnameWildcard":
-            # nothing may follow: a further next() on the template iterator, Some -> panic, checked before anything is created
-            inner = [n for n in nexts if n[0] != obb and inarm(n[0])]
-            okw = False
-            d = "no look-ahead next() on the template iterator in the wildcard arm"
-            for nbb, nt, _p in inner:
-                some_t = none_t = None
+            # Nothing may follow a wildcard.  Whether segments follow is a fact of the path, established in either idiom:
+            #   look-ahead : a further next() on the template iterator is Some / None (match, if-let, is_some(), is_none())
+            #   position   : the iterator is enumerate()d and this element's position is compared with the length of the segment list
+            #                (`index + 1 < n`, `index + 1 == n`, `index != n - 1`, ...; only comparisons that are exact count)
+            # On every path through the arm that goes on (to the creation of the edge, to the next segment, to return) the fact must
+            # be "nothing follows", and the paths on which segments follow must end in a panic.
+            dim = "segments-follow"
+            sfacts, afacts = {}, {}
+            for nbb, nt, _p, _e in [n for n in nexts if n[0] != obb and inarm(n[0])]:
                 ie = option_edges(ins, nt["dest"]["l"])
                 if ie:
-                    _sw, some_t, none_t = ie
-                    swb = _sw
+                    sfacts.setdefault(ie[0], []).append((dim, {ie[1]: frozenset(["yes"]), ie[2]: frozenset(["no"])}))
+                for cbb, ct in ins.live_calls(r"Option::<T>::(is_some|is_none)$"):
+                    pa = access_path(ins, ct["args"][0], VP)
+                    if pa.call() and pa.call()[2] is nt and not pa.path:
+                        afacts[cbb] = (dim, "yes", "no") if ct["callee"].endswith("is_some") else (dim, "no", "yes")
+            if enumerated:
+                seg_list = op_.call()[2]
+
+                def is_index(q):
+                    return q.call() is not None and q.call()[2] is ot and q.path == ["as Some", "0", "0"] and not q.calls
+
+                def is_length(q):
+                    if not (q.is_call(r"(vec::Vec::<T, A>|slice::<impl \[T\]>)::len$") and not q.path and not q.calls):
+                        return False
+                    v = access_path(ins, q.call()[2]["args"][0], VP + [r"vec::Vec::<T, A>::as_slice$"])
+                    return v.call() is not None and v.call()[2] is seg_list and not v.path
+                for atom, follow_when_true in position_tests(ins, is_index, is_length):
+                    if inarm(atom[1]):
+                        afacts[atom] = (dim, "yes", "no") if follow_when_true else (dim, "no", "yes")
+            okw = False
+            d = "no test in the wildcard arm whether further template segments follow (a look-ahead next() on the template iterator, or the element's position against the number of segments)"
+            if sfacts or afacts:
+                states = region_states(ins, tgt, stops=[gbb, obb] + list(ins.returns()), switch_facts=sfacts, atom_facts=afacts)
+                if states is None:
+                    d = "path conditions of the wildcard arm: state budget exceeded"
                 else:
-                    for cbb, ct in ins.live_calls(r"Option::<T>::(is_some|is_none)$"):
-                        pa = access_path(ins, ct["args"][0], VP)
-                        if pa.call() and pa.call()[2] is nt and not pa.path:
-                            sw = bool_switch_of_call(ins, cbb, ct)
-                            if sw:
-                                swb = sw[0]
-                                some_t, none_t = (sw[1], sw[2]) if ct["callee"].endswith("is_some") else (sw[2], sw[1])
-                if some_t is not None:
-                    okw = ins.is_diverging(some_t) and ins.edge_dominates(swb, none_t, gbb) and not ins.is_diverging(none_t)
-                    d = "all_segments.next(): Some -> %s; the edge is only created on the None edge: %s" % ("panic" if ins.is_diverging(some_t) else "ACCEPTED", ins.edge_dominates(swb, none_t, gbb))
+                    goes_on = [(k, b, f) for k, b, f in states if k != "diverge"]
+                    bad = [(k, b, f) for k, b, f in goes_on if f.get(dim) != frozenset(["no"])]
+                    refused = [b for k, b, f in states if k == "diverge" and f.get(dim) == frozenset(["yes"])]
+                    okw = bool(goes_on) and not bad and bool(refused)
+                    d = "segments follow the wildcard -> %s; the edge is created and the walk goes on only where nothing follows: %s (%s idiom)" % (
+                        "panic" if refused else "ACCEPTED", not bad, "position" if any(isinstance(a, tuple) for a in afacts) else "look-ahead")
             ctx.check(R, "VarnameWildcard:segments-after-wildcard-refused", okw, d, (ins, tgt))
     # one varnames set per insert call, created before the loop
     oks = len(set_roots) == 1 and all(ins.dominates(b, obb) and b not in ins.reachable(o_some) for _, b in set_roots)
@@ -334,7 +395,7 @@ def r2_conflict_table(ctx):
             t["callee"].split("::")[-1], "panic" if iv.is_diverging(present) else "ACCEPTED", recorded)
     ctx.check(R, "insert_var:repeated-name-refused", okb, d, iv)
     ivc = callers(ctx.ds, r"^router::insert_var$")
-    ctx.check(R, "insert_var:called-only-from-insert", len(ivc) == 2 and all(f is ins for f, _, _ in ivc), "insert_var call sites: %s" % [(f.id.split("::")[-1]) for f, _, _ in ivc], iv)
+    ctx.check(R, "insert_var:called-only-from-insert", len(ivc) == 2 and all(f is ins for f, _, _ in ivc), "insert_var call sites: %s" % [(f.id.split("::")[-1]) for f, _, _ in ivc], iv)       # `ins`: the function holding the walk
 
 
 # --------------------------------------------------------------------------- R3
@@ -366,7 +427,11 @@ def r3_shape(ctx):
     priv = all(f["vis"] != "Public" for f in node["variants"][0]["fields"]) and all(f["vis"] != "Public" for v in edges["variants"] for f in v["fields"])
     ctx.check(R, "trie-fields-not-public", priv, "no field of HttpRouterNode / HttpRouterEdges is public: %s" % priv, nontrivial=False)
     sites = sorted(set(outermost_fn(ctx.ds, f).id for f in ctx.ds.F.values() for _ in f.aggregates(r"^router::HttpRouterEdges$")))    # closures count for the function they are written in
-    ctx.check(R, "edges-built-only-in-insert", sites == ["router::HttpRouter::<Context>::insert"], "aggregate sites of HttpRouterEdges: %s" % sites)
+    # "insert" here is the function holding the trie walk of the registration: HttpRouter::insert, or the private function it alone calls
+    # for the walk (found by role, see _walk)
+    w = _walk(ctx)
+    home = [w[1].id] if not isinstance(w, str) else ["router::HttpRouter::<Context>::insert"]
+    ctx.check(R, "edges-built-only-in-insert", sites == home, "aggregate sites of HttpRouterEdges: %s%s" % (sites, (" - " + w) if isinstance(w, str) else ""))
     nsites = sorted(set(outermost_fn(ctx.ds, f).id for f in ctx.ds.F.values() for _ in f.aggregates(r"^router::HttpRouterNode$")))
     ctx.check(R, "nodes-built-only-empty", nsites == ["router::HttpRouterNode::<Context>::new"], "aggregate sites of HttpRouterNode: %s" % nsites)
     # nobody assigns .edges directly (only Option::get_or_insert in insert writes it)
@@ -380,7 +445,7 @@ def r3_shape(ctx):
                 p = access_path(f, t["args"][0], VP)
                 if p.path and p.path[-1] == "edges" and "HttpRouterEdges" in f.local_ty(operand_local(t["args"][0]) or 0):
                     writes.append(outermost_fn(ctx.ds, f).id)
-    ctx.check(R, "edges-written-only-in-insert", sorted(set(writes)) == ["router::HttpRouter::<Context>::insert"], "functions writing a node's `edges`: %s" % sorted(set(writes)))
+    ctx.check(R, "edges-written-only-in-insert", sorted(set(writes)) == home, "functions writing a node's `edges`: %s" % sorted(set(writes)))
 
 
 # --------------------------------------------------------------------------- R4
@@ -422,15 +487,6 @@ def _closure_variant_table(h, adt_pattern):
     return dict(info, targets=targets), out
 
 
-def _filter_map_closure(fn, sl):
-    """The closure handed to the filter_map on a slice."""
-    for c, bb, t in sl.calls(r"iter::Iterator::filter_map$"):
-        cl = closure_args_of_call(fn, t)
-        if len(cl) == 1:
-            return cl[0][0]
-    return None
-
-
 def Path_prefix(p):
     """The access path one field up (`x.metadata` -> `x`)."""
     from .lib_c01 import Path
@@ -438,40 +494,96 @@ def Path_prefix(p):
     return q
 
 
-FRESH_COLLECTION = r"(HashSet|BTreeSet|BTreeMap|HashMap)::<[^>]*>::(new|with_capacity|default)$|default::Default::default$"
+FRESH_COLLECTION = r"(HashSet|BTreeSet|BTreeMap|HashMap)::<[^>]*>::(new|with_capacity|default)$|vec::Vec::<T>::(new|with_capacity)$|default::Default::default$"
+ITER_VIEW = [r"iter::IntoIterator::into_iter$", r"slice::<impl \[T\]>::iter$", r"vec::Vec::<T, A>::iter$", r"vec::Vec::<T, A>::as_slice$"]
+
+
+def _projection_of(h):
+    """A closure handed to Iterator::map that only selects from its item: "id" (returns the item), k (returns component k of a tuple item), else None."""
+    qs = sources(h, {"l": 0, "p": []}, VP)
+    ks = set()
+    for q in qs:
+        if not (q.kind() == "param" and q.root[1] == 2 and len(q.path) <= 1):
+            return None
+        ks.add(q.path[0] if q.path else "id")
+    if len(ks) != 1:
+        return None
+    k = ks.pop()
+    return "id" if k == "id" else (int(k) if k.isdigit() else None)
 
 
 def _comprehension(fn, coll, adt_pattern):
-    """How a set / map is filled from an iteration with a match on an enum per element, in either idiom:
+    """How a set / map / list is filled from an iteration with a match on an enum per element.  The producer is one of
 
-      chain : src.iter().filter_map(|x| match E(x) { A(v) => Some(..v..), B => None }).collect()
-      loop  : let mut c = Set::new(); for x in src { match E(x) { A(v) => { c.insert(..v..); } B => {} } }
+      chain : src.iter().filter_map(|x| match E(x) { A(v) => Some(..v..), B => None })
+      loop  : let mut c = Set::new(); for x in src { match E(x) { A(v) => { c.insert(..v..); } B => {} } }     (insert into a set / map, push onto a Vec)
+
+    and what is produced may pass through any number of stages that keep or select, element by element, what was produced:
+    `.collect()` into another collection, iteration over an intermediate collection (into_iter / iter), and
+    `.map(|(a, _)| a)` - a closure that returns its item or one component of it (_projection_of).  So
+    `helper(path).map(|(name, _)| name).collect::<HashSet<_>>()` with `helper` = the chain or the loop over `(name, kind)` pairs is
+    the set of names.
 
     Returns None (not such a collection) or dict(form, ctx = the function or closure holding the match, info = the switch (place of the scrutinee),
     table = {variant: ("Some", [component sources..]) | ("None", None) | ("?", None)}, src = slice of the iterated source, local = the collection's
-    local in fn, is_elem = predicate telling whether an access path in ctx is the element under iteration).  A map's payload has two components."""
+    local in fn, collected = the collection is the result of a collect(), is_elem = predicate telling whether an access path in ctx is the element
+    under iteration).  A map's payload has two components."""
     la = access_path(fn, coll, VP)
     if la.path:
         return None
-    if la.is_call(r"iter::Iterator::collect$"):
-        sl = fn.slice(la.call()[2]["args"][0])
-        h = _filter_map_closure(fn, sl)
-        if h is None:
+    cur, proj, collected = la, None, False
+    for _ in range(6):
+        if cur.is_call(r"iter::Iterator::collect$") and not cur.calls:
+            collected = True
+        elif cur.is_call(r"iter::Iterator::map$") and not cur.calls:
+            cl = closure_args_of_call(fn, cur.call()[2])
+            k = _projection_of(cl[0][0]) if len(cl) == 1 else None
+            if k is None or (k != "id" and proj is not None):
+                return None
+            proj = proj if k == "id" else k
+        else:
+            break
+        cur = access_path(fn, cur.call()[2]["args"][0], VP + ITER_VIEW)
+        if cur.path:
             return None
+    res = _producer(fn, cur, adt_pattern)
+    if res is None:
+        return None
+    if proj is not None:
+        res["table"] = {v: ((k, [comps[proj]]) if k == "Some" and proj < len(comps) else (k, None) if k != "Some" else ("?", None)) for v, (k, comps) in res["table"].items()}
+    res["local"] = la.root_local()
+    res["collected"] = collected or res["form"] == "chain"
+    return res
+
+
+def _tuple_components(g, comps, via, avoid=()):
+    """A payload that is a tuple built on the spot is its components."""
+    if len(comps) == 1 and len(comps[0]) == 1 and comps[0][0].kind() == "agg" and comps[0][0].root[2].get("agg") == "tuple" and not comps[0][0].path:
+        return [sources(g, o, VP, via=via, avoid=avoid) for o in comps[0][0].root[2]["ops"]]
+    return comps
+
+
+def _producer(fn, la, adt_pattern):
+    """The chain / loop producer behind access path `la` (see _comprehension)."""
+    if la.is_call(r"iter::Iterator::filter_map$") and not [c for c, _ in la.calls if not re.search("|".join(ITER_VIEW), c)]:
+        ft = la.call()[2]
+        cl = closure_args_of_call(fn, ft)
+        if len(cl) != 1:
+            return None
+        h = cl[0][0]
+        sl = fn.slice(ft["args"][0])
         info, tab = _closure_variant_table(h, adt_pattern)
         if tab is None:
             return None
         table = {}
         for v, (k, qs) in tab.items():
-            if k == "Some" and len(qs) == 1 and qs[0].kind() == "agg" and qs[0].root[2].get("agg") == "tuple" and not qs[0].path:
-                table[v] = ("Some", [sources(h, o, VP, via=info["targets"][v]) for o in qs[0].root[2]["ops"]])
-            elif k == "Some":
-                table[v] = ("Some", [qs])
+            if k == "Some":
+                table[v] = ("Some", _tuple_components(h, [qs], info["targets"][v]))
             else:
                 table[v] = (k, None)
-        return {"form": "chain", "ctx": h, "info": info, "table": table, "src": sl, "local": la.root_local(),
+        return {"form": "chain", "ctx": h, "info": info, "table": table, "src": sl,
                 "is_elem": lambda q: q.kind() == "param" and q.root[1] == 2 and not q.calls}
-    if not (la.kind() == "call" and re.search(FRESH_COLLECTION, la.root[2]) and not la.calls):
+    if not (la.kind() == "call" and re.search(FRESH_COLLECTION, la.root[2]) and not [c for c, _ in la.calls if not re.search("|".join(ITER_VIEW), c)]):
         return None
     c = la.root_local()
     writes, foreign = [], []
@@ -479,7 +591,7 @@ def _comprehension(fn, coll, adt_pattern):
         for idx, a in enumerate(t["args"]):
             l = operand_local(a)
             if l is not None and fn.local_ty(l).startswith("&") and "mut " in fn.local_ty(l)[:16] and borrow_root(fn, a) == c:
-                if idx == 0 and re.search(r"(Set|Map)::<[^>]*>::insert$", t.get("callee") or "") and len(t["args"]) in (2, 3):
+                if idx == 0 and re.search(r"(Set|Map)::<[^>]*>::insert$|vec::Vec::<T, A>::push$", t.get("callee") or "") and len(t["args"]) in (2, 3):
                     writes.append((bb, t))
                 else:
                     foreign.append(t.get("callee"))
@@ -506,14 +618,14 @@ def _comprehension(fn, coll, adt_pattern):
         if len(ws) == 1:
             must = nbb not in fn.reachable(tgt, avoid=[ws[0][0]]) and not any(x in fn.reachable(tgt, avoid=[ws[0][0], nbb]) for x in fn.returns())
             covered.add(ws[0][0])
-            table[v] = ("Some", [sources(fn, o, VP, via=tgt, avoid=[nbb]) for o in ws[0][1]["args"][1:]]) if must else ("?", None)
+            table[v] = ("Some", _tuple_components(fn, [sources(fn, o, VP, via=tgt, avoid=[nbb]) for o in ws[0][1]["args"][1:]], tgt, [nbb])) if must else ("?", None)
         elif not ws:
             table[v] = ("None", None)
         else:
             table[v] = ("?", None)
     if set(wbs) - covered:
         return None         # a write that is not in any arm of the match (outside the loop, or unconditional)
-    return {"form": "loop", "ctx": fn, "info": info, "table": table, "src": fn.slice(nt["args"][0]), "local": c,
+    return {"form": "loop", "ctx": fn, "info": info, "table": table, "src": fn.slice(nt["args"][0]),
             "is_elem": lambda q: q.call() is not None and q.call()[2] is nt and q.npath()[:2] == ["+", "0"]}
 
 
@@ -601,78 +713,112 @@ def _vnp_rules(ctx, R):
         if dest["p"]:
             continue
         comp = _comprehension(vnp, dest, r"^router::PathSegment$")
-        if comp and comp["src"].has_call(r"^router::route_path_to_segments$"):
+        # (an intermediate list of (name, kind) pairs from which the map is collected is not the map)
+        if comp and comp["src"].has_call(r"^router::route_path_to_segments$") and re.match(r"^std::collections::(BTreeMap|HashMap)<", vnp.local_ty(comp["local"])):
             maps.append(comp)
     if len(maps) != 1:
         ctx.lost(R, "the name -> segment-kind map built from the path template in validate_named_parameters (%d found)" % len(maps))
         return
     comp = maps[0]
     mlocal, msl, hm = comp["local"], comp["src"], comp["ctx"]
-    sow = [k for k in ds.adts if k.endswith("validate_named_parameters::SegmentOrWildcard")]
+    # The map's values are the variable's kind.  Which enum (and which of its variants) stands for which kind is read off the map's
+    # construction, not off names: "Segment" is whatever is recorded for a VarnameSegment, "Wildcard" whatever is recorded for a VarnameWildcard.
     okmap = False
-    d = "the map is not keyed by the variable kinds of the template"
-    if len(sow) == 1:
-        pin = access_path(hm, comp["info"]["place"], VP)
-        src_ok = pin.is_call(r"^router::PathSegment::from$") and comp["is_elem"](access_path(hm, pin.call()[2]["args"][0], VP))
-        got = {}
-        for v, (k, comps) in comp["table"].items():
-            if k != "Some":
-                got[v] = k
-                continue
-            if len(comps) == 2 and comps[0] and len(comps[1]) == 1:
-                kd = comps[1][0]
-                got[v] = (all(nm.root_local() == pin.root_local() and nm.path == ["as " + v, "0"] for nm in comps[0]),
-                          kd.root[2].get("variant") if kd.kind() == "agg" and kd.root[2].get("adt") == sow[0] else "?")
-            else:
-                got[v] = "?"
-        okmap = src_ok and got == {"Literal": "None", "VarnameSegment": (True, "Segment"), "VarnameWildcard": (True, "Wildcard")} and msl.reads_field("path") and msl.params() == [2]
-        d = "template segment -> map entry [%s idiom]: %s" % (comp["form"], dict(sorted(got.items(), key=lambda kv: kv[0])))
-    # once built the map is only read: every mutable borrow of it feeds one of the recognised inserts (none in the collect idiom)
+    kind_adt, kind_name = None, {}
+    pin = access_path(hm, comp["info"]["place"], VP)
+    src_ok = pin.is_call(r"^router::PathSegment::from$") and comp["is_elem"](access_path(hm, pin.call()[2]["args"][0], VP))
+    got = {}
+    for v, (k, comps) in comp["table"].items():
+        if k != "Some":
+            got[v] = k
+            continue
+        if len(comps) == 2 and comps[0] and len(comps[1]) == 1:
+            kd = comps[1][0]
+            isk = kd.kind() == "agg" and kd.root[2].get("agg") == "adt" and not kd.root[2].get("ops") and not kd.path and ds.adts.get(kd.root[2].get("adt"), {}).get("kind") == "enum"
+            got[v] = (all(nm.root_local() == pin.root_local() and nm.path == ["as " + v, "0"] for nm in comps[0]),
+                      "%s::%s" % (kd.root[2]["adt"].split("::")[-1], kd.root[2]["variant"]) if isk else "?")
+            if isk and v in ("VarnameSegment", "VarnameWildcard"):
+                kind_adt = kd.root[2]["adt"] if kind_adt in (None, kd.root[2]["adt"]) else "?"
+                kind_name.setdefault(kd.root[2]["variant"], []).append({"VarnameSegment": "Segment", "VarnameWildcard": "Wildcard"}[v])
+        else:
+            got[v] = "?"
+    kinds_ok = kind_adt not in (None, "?") and sorted(x for xs in kind_name.values() for x in xs) == ["Segment", "Wildcard"] and all(len(xs) == 1 for xs in kind_name.values())
+    kind_name = {k: xs[0] for k, xs in kind_name.items()} if kinds_ok else {}
+    okmap = src_ok and kinds_ok and got.get("Literal") == "None" and all(isinstance(got.get(v), tuple) and got[v][0] for v in ("VarnameSegment", "VarnameWildcard")) and \
+        sorted(got) == ["Literal", "VarnameSegment", "VarnameWildcard"] and msl.reads_field("path") and msl.params() == [2]
+    d = "template segment -> map entry [%s idiom]: %s; two distinct kinds of one enum: %s" % (comp["form"], dict(sorted(got.items(), key=lambda kv: kv[0])), kinds_ok)
+    # once built the map is only read: every mutable borrow of it feeds one of the recognised inserts (none when it is collect()ed)
     mut_borrows = [bb for bb, i, st in vnp.stmts() if st["rv"]["rv"] in ("ref", "rawptr") and st["rv"].get("mut") and st["rv"]["pl"]["l"] == mlocal]
-    frozen = comp["form"] == "loop" or not mut_borrows
+    frozen = (comp["form"] == "loop" and not comp["collected"]) or not mut_borrows
     ctx.check(R, "vnp:path-variable-kinds-from-e.path", okmap and frozen and bool(re.match(r"^std::collections::(BTreeMap|HashMap)<std::string::String", vnp.local_ty(mlocal))),
               d + ("" if frozen else "; the map is borrowed mutably after it was collected"), hm)
-    # the loop over e.parameters
-    loops = []
+    # ---- the per-parameter body: the body of the loop over e.parameters, or the closure handed to try_for_each on e.parameters' iterator
+    over_params = VP + [r"iter::IntoIterator::into_iter$", r"slice::<impl \[T\]>::iter$", r"vec::Vec::<T, A>::iter$", r"vec::Vec::<T, A>::as_slice$"]
+    loops, folds = [], []
     for bb, t in vnp.live_calls(r"iter::Iterator::next$"):
-        p = access_path(vnp, t["args"][0], VP + [r"iter::IntoIterator::into_iter$", r"slice::<impl \[T\]>::iter$", r"vec::Vec::<T, A>::iter$"])
+        p = access_path(vnp, t["args"][0], over_params)
         if p.kind() == "param" and p.root[1] == 2 and p.path == ["parameters"]:
             loops.append((bb, t))
-    if len(loops) != 1:
-        ctx.lost(R, "the loop over e.parameters in validate_named_parameters (%d found)" % len(loops))
+    for bb, t in vnp.live_calls(r"iter::Iterator::try_for_each$"):
+        p = access_path(vnp, t["args"][0], over_params)
+        cl = closure_args_of_call(vnp, t)
+        if p.kind() == "param" and p.root[1] == 2 and p.path == ["parameters"] and len(cl) == 1:
+            folds.append((bb, t, cl[0][0]))
+    if len(loops) + len(folds) != 1:
+        ctx.lost(R, "the loop over e.parameters in validate_named_parameters (%d loops, %d try_for_each found)" % (len(loops), len(folds)))
         return
-    nbb, nt = loops[0]
-    ne = option_edges(vnp, nt["dest"]["l"])
-    if ne is None:
-        ctx.lost(R, "switch on the parameter iterator's next()")
-        return
-    nsw, n_some, n_none = ne
-    in_iter = vnp.reachable(n_some, avoid=[nbb])
+    if loops:
+        # g: the function holding the body; start: its first block; again: the block that begins the next iteration
+        g = vnp
+        nbb, nt = loops[0]
+        ne = option_edges(vnp, nt["dest"]["l"])
+        if ne is None:
+            ctx.lost(R, "switch on the parameter iterator's next()")
+            return
+        nsw, n_some, n_none = ne
+        start, again = n_some, [nbb]
+
+        def rel(p):
+            """the path of p relative to the parameter under iteration, or None"""
+            return p.path[2:] if p.call() is not None and p.call()[2] is nt and p.npath()[:2] == ["+", "0"] else None
+
+        def is_map(op):
+            q = access_path(vnp, op, VP)
+            return q.root_local() == mlocal and not q.path and q.kind() in ("call", "local")
+    else:
+        fbb, ft, g = folds[0]
+        start, again = 0, []
+        nbb = fbb
+
+        def rel(p):
+            return list(p.path) if p.kind() == "param" and p.root[1] == 2 and p.fn is g else None
+
+        def is_map(op):
+            h, q = resolve_path(ds, g, op, VP)
+            return h is vnp and q.root_local() == mlocal and not q.path and q.kind() in ("call", "local")
+    in_iter = g.reachable(start, avoid=again)
 
     def this_param(p, *suffix):
         """p is <the element under iteration>.<suffix..>"""
-        return p.call() is not None and p.call()[2] is nt and p.npath()[:2] == ["+", "0"] and p.npath()[2:2 + len(suffix)] == list(suffix)
+        r = rel(p)
+        return r is not None and r[:len(suffix)] == list(suffix)
 
     def is_own_name(op):
         """every value the operand can hold is the name carried by this parameter's metadata (`Path(name)` / `Query(name)`; an or-pattern binds it once per alternative)"""
-        qs = sources(vnp, op, VP, avoid=[nbb])
-        return bool(qs) and all(this_param(q, "metadata") and len(q.path) == 5 and q.path[3] in ("as Path", "as Query") and q.path[4] == "0" for q in qs)
+        qs = sources(g, op, VP, avoid=again)
+        return bool(qs) and all(rel(q) is not None and len(rel(q)) == 3 and rel(q)[0] == "metadata" and rel(q)[1] in ("as Path", "as Query") and rel(q)[2] == "0" for q in qs)
 
-    def is_map(op):
-        q = access_path(vnp, op, VP)
-        return q.root_local() == mlocal and not q.path and q.kind() in ("call", "local")
-
-    # ---- what each switch / boolean test inside the loop says
+    # ---- what each switch / boolean test inside the body says
     switch_facts, atom_facts, kill = {}, {}, {}
     msw = []
     foreign_md = 0
-    for sbb, info, tg in enum_switches(vnp, r".") :
+    for sbb, info, tg in enum_switches(g, r".") :
         if sbb not in in_iter:
             continue
-        p = access_path(vnp, info["place"], VP + OPT_COPY)
-        sets = discr_edge_sets(vnp, sbb, info)
+        p = access_path(g, info["place"], VP + OPT_COPY)
+        sets = discr_edge_sets(g, sbb, info)
         if re.search(METADATA, info["adt"]):
-            if this_param(p, "metadata") and len(p.path) == 3:
+            if rel(p) == ["metadata"]:
                 switch_facts.setdefault(sbb, []).append(("metadata", sets))
                 msw.append(sbb)
             else:
@@ -681,52 +827,92 @@ def _vnp_rules(ctx, R):
         if p.is_call(MAP_LOOKUP) and is_map(p.call()[2]["args"][0]) and is_own_name(p.call()[2]["args"][1]):
             if not p.path and info["adt"] == "std::option::Option":
                 switch_facts.setdefault(sbb, []).append(("name-is-path-variable", {s: frozenset({"Some": "yes", "None": "no"}[v] for v in vs) for s, vs in sets.items()}))
-            elif p.npath() == ["+", "0"] and len(sow) == 1 and info["adt"] == sow[0]:
-                switch_facts.setdefault(sbb, []).append(("kind", sets))
+            elif p.npath() == ["+", "0"] and kinds_ok and info["adt"] == kind_adt:
+                switch_facts.setdefault(sbb, []).append(("kind", {s: frozenset(kind_name.get(v, v) for v in vs) for s, vs in sets.items()}))
                 switch_facts[sbb].append(("name-is-path-variable", {s: frozenset(["yes"]) for s in sets}))
-    for cbb, ct in vnp.live_calls(MAP_HAS):
+    for cbb, ct in g.live_calls(MAP_HAS):
         if cbb in in_iter and is_map(ct["args"][0]) and is_own_name(ct["args"][1]):
             atom_facts[cbb] = ("name-is-path-variable", "yes", "no")
-    for cbb, ct in vnp.live_calls(r"Option::<T>::(is_some|is_none)$"):
-        p = access_path(vnp, ct["args"][0], VP + OPT_COPY)
+    for cbb, ct in g.live_calls(r"Option::<T>::(is_some|is_none)$"):
+        p = access_path(g, ct["args"][0], VP + OPT_COPY)
         if cbb in in_iter and p.is_call(MAP_LOOKUP) and not p.path and is_map(p.call()[2]["args"][0]) and is_own_name(p.call()[2]["args"][1]):
             atom_facts[cbb] = ("name-is-path-variable", "yes", "no") if ct["callee"].endswith("is_some") else ("name-is-path-variable", "no", "yes")
     ctx.check(R, "vnp:dispatch-on-this-parameter's-metadata", bool(msw) and not foreign_md,
-              "switches on the current parameter's metadata inside the loop: %d; on some other metadata value: %d" % (len(msw), foreign_md), (vnp, nbb))
+              "switches on the current parameter's metadata inside the loop: %d; on some other metadata value: %d" % (len(msw), foreign_md), (g, nbb if loops else 0))
     # ---- the type checks: applied to this parameter's own name, schema and dependencies; their outcome is a fact of the path
-    checks = [(bb, t) for bb, t in vnp.live_calls(r"^type_util::type_is_(scalar|string_enum)$")]
+    checks = [(bb, t) for bb, t in g.live_calls(r"^type_util::type_is_(scalar|string_enum)$")]
     passed_dim = {}
+    verdict_of = {}             # (closure idiom) block after a check whose result is the body's verdict itself -> its dimension
     bad_sites = []
     for cbb, ct in checks:
         fnname = ct["callee"].split("::")[-1]
-        schs = sources(vnp, ct["args"][2], VP, avoid=[nbb])
-        deps = sources(vnp, ct["args"][3], VP, avoid=[nbb])
+        schs = sources(g, ct["args"][2], VP, avoid=again)
+        deps = sources(g, ct["args"][3], VP, avoid=again)
         ok_args = cbb in in_iter and is_own_name(ct["args"][1]) and \
-            bool(schs) and all(this_param(q, "schema") and q.path[-1] == "schema" and len(q.path) > 3 for q in schs) and \
-            bool(deps) and all(this_param(q, "schema") and q.path[-1] == "dependencies" for q in deps)
-        sp = result_split(vnp, ct["dest"]["l"])        # `check(..)?`, match, if-let-Err, let-else alike
-        if not ok_args or sp is None:
-            bad_sites.append("%s(.., %r, %r, ..)%s" % (fnname, access_path(vnp, ct["args"][1], VP), access_path(vnp, ct["args"][2], VP), "" if sp else " whose result is never split into Ok / Err"))
+            bool(schs) and all(this_param(q, "schema") and rel(q)[-1] == "schema" and len(rel(q)) > 1 for q in schs) and \
+            bool(deps) and all(this_param(q, "schema") and rel(q)[-1] == "dependencies" for q in deps)
+        returned = not loops and ct["dest"]["l"] == 0 and not ct["dest"]["p"] and "to" in ct
+        sp = None if returned else result_split(g, ct["dest"]["l"])        # `check(..)?`, match, if-let-Err, let-else alike
+        if not ok_args or (sp is None and not returned):
+            bad_sites.append("%s(.., %r, %r, ..)%s" % (fnname, access_path(g, ct["args"][1], VP), access_path(g, ct["args"][2], VP), "" if sp or returned else " whose result is never split into Ok / Err"))
             continue
         dim = ("result", fnname, cbb)
         passed_dim[dim] = fnname
+        if returned:
+            verdict_of[ct["to"]] = dim
+            continue
         switch_facts.setdefault(sp["switch_bb"], []).append((dim, {sp["ok"]: frozenset(["Ok"]), sp["err"]: frozenset(["Err"])}))
         kill.setdefault(cbb, []).append(dim)
-    for cbb, ct in vnp.live_calls(r"Result::<T, E>::(is_ok|is_err)$"):
-        p = access_path(vnp, ct["args"][0], VP)
+    for cbb, ct in g.live_calls(r"Result::<T, E>::(is_ok|is_err)$"):
+        p = access_path(g, ct["args"][0], VP)
         if p.call() is not None and not p.path:
             for dim in passed_dim:
                 if dim[2] == p.call()[1]:
                     atom_facts[cbb] = (dim, "Ok", "Err") if ct["callee"].endswith("is_ok") else (dim, "Err", "Ok")
     ctx.check(R, "vnp:type-checks-apply-to-this-parameter", bool(checks) and not bad_sites,
-              "type_is_scalar / type_is_string_enum calls in the loop: %d; not applied to this parameter's own name, Static schema and dependencies: %s" % (len(checks), bad_sites or "none"), vnp)
-    # ---- every way an iteration can accept its parameter
-    oks = ok_return_blocks(vnp)
-    states = region_states(vnp, n_some, stops=[nbb] + oks, switch_facts=switch_facts, atom_facts=atom_facts, kill=kill)
-    if states is None:
-        ctx.lost(R, "path conditions of the parameter loop (state budget exceeded)")
-        return
-    accepting = [(b, f) for k, b, f in states if k == "stop"]
+              "type_is_scalar / type_is_string_enum calls in the loop: %d; not applied to this parameter's own name, Static schema and dependencies: %s" % (len(checks), bad_sites or "none"), g)
+    # ---- every way the body can accept its parameter
+    if loops:
+        oks = ok_return_blocks(vnp)
+        states = region_states(vnp, start, stops=[nbb] + oks, switch_facts=switch_facts, atom_facts=atom_facts, kill=kill)
+        if states is None:
+            ctx.lost(R, "path conditions of the parameter loop (state budget exceeded)")
+            return
+        accepting = [(b, f) for k, b, f in states if k == "stop"]
+        refusing_states = [(k, b, f) for k, b, f in states if k != "stop"]
+        goes_to = lambda b: "the next parameter" if b == nbb else "Ok(())"
+    else:
+        # The closure's verdict is its return value: the parameter is accepted iff that is Ok.  Every definition of the return place ends
+        # the path: `Ok(..)` built on the spot accepts, `Err(..)` / a `?` residual refuses, a type check whose result is returned as it is
+        # accepts exactly when the check answered Ok (recorded as that check's fact), anything else counts as accepting (fail closed).
+        stops, verdict = {}, {}
+        for dbb, kind, node in g.defs().get(0, []):
+            if dbb not in in_iter:
+                continue
+            if kind == "call" and node.get("to") in verdict_of:
+                stops[node["to"]] = ("check", verdict_of[node["to"]])
+            elif kind == "call" and (node.get("callee") or "").endswith("FromResidual::from_residual") and "to" in node:
+                stops[node["to"]] = ("refuse", None)
+            elif kind == "assign" and not node["pl"]["p"] and node["rv"]["rv"] == "agg" and node["rv"].get("adt") == "std::result::Result":
+                stops[dbb] = ("accept", None) if node["rv"].get("variant") == "Ok" else ("refuse", None)
+            else:
+                stops[node["to"] if kind == "call" and "to" in node else dbb] = ("accept", None)
+        states = region_states(g, start, stops=list(stops), switch_facts=switch_facts, atom_facts=atom_facts, kill=kill)
+        if states is None:
+            ctx.lost(R, "path conditions of the per-parameter closure (state budget exceeded)")
+            return
+        accepting, refusing_states = [], []
+        for k, b, f in states:
+            if k == "stop" and stops[b][0] == "check":
+                accepting.append((b, dict(list(f.items()) + [(stops[b][1], frozenset(["Ok"]))])))
+                refusing_states.append(("refuse", b, dict(list(f.items()) + [(stops[b][1], frozenset(["Err"]))])))
+            elif k == "stop" and stops[b][0] == "accept":
+                accepting.append((b, f))
+            elif k == "return":
+                accepting.append((b, f))        # a path to return on which the verdict was never assigned: not understood, counts as accepting
+            else:
+                refusing_states.append((k, b, f))
+        goes_to = lambda b: "Ok(()) for this parameter"
 
     def passed(f):
         return sorted(set(fnname for dim, fnname in passed_dim.items() if f.get(dim) == frozenset(["Ok"])))
@@ -746,28 +932,42 @@ def _vnp_rules(ctx, R):
         if bad:
             b, f = bad[0]
             d = "%s can be accepted without %s having returned Ok: a path with facts %s (checks passed: %s) goes on to %s" % (
-                what, want, show_facts({k: v for k, v in f.items() if isinstance(k, str)}), passed(f) or "none", "the next parameter" if b == nbb else "Ok(())")
+                what, want, show_facts({k: v for k, v in f.items() if isinstance(k, str)}), passed(f) or "none", goes_to(b))
         if not acc:
             d = "%s is never accepted (no path of the loop body compatible with this case reaches the next parameter): the analysis found no such path" % what
-        ctx.check(R, key, bool(acc) and not bad, d, (vnp, bad[0][0] if bad else nbb))
+        ctx.check(R, key, bool(acc) and not bad, d, (g, bad[0][0] if bad else (nbb if loops else 0)))
     for var in ("Path", "Query"):
         acc = [(b, f) for b, f in accepting if compatible(f, {"metadata": var})]
         bad = [(b, f) for b, f in acc if not passed(f)]
         ctx.check(R, "vnp:every-%s-parameter-is-checked" % var, not bad,
-                  "a %s parameter can reach the next iteration / Ok without passing a type check: %s%s" % (var, bool(bad), (" - facts " + show_facts(bad[0][1])) if bad else ""), (vnp, nbb))
+                  "a %s parameter can reach the next iteration / Ok without passing a type check: %s%s" % (var, bool(bad), (" - facts " + show_facts(bad[0][1])) if bad else ""), (g, nbb if loops else 0))
     # Query name that is also a path variable: never accepted
     clash = {"metadata": "Query", "name-is-path-variable": "yes"}
     bad = [(b, f) for b, f in accepting if compatible(f, clash)]
     tested = any(d == "name-is-path-variable" for v in switch_facts.values() for d, _ in v) or any(v[0] == "name-is-path-variable" for v in atom_facts.values())
-    refusing = [(k, b) for k, b, f in states if k != "stop" and f.get("metadata") == frozenset(["Query"]) and f.get("name-is-path-variable") == frozenset(["yes"])]
+    refusing = [(k, b) for k, b, f in refusing_states if f.get("metadata") == frozenset(["Query"]) and f.get("name-is-path-variable") == frozenset(["yes"])]
     d = "a Query parameter whose name is a key of the path-variable map ends the registration (Err / panic) on %d path class(es) and is never accepted: %s" % (len(refusing), not bad)
     if bad:
-        d = "a Query parameter whose name is also a path variable is accepted: a path with facts %s goes on to %s" % (show_facts(bad[0][1]), "the next parameter" if bad[0][0] == nbb else "Ok(())")
+        d = "a Query parameter whose name is also a path variable is accepted: a path with facts %s goes on to %s" % (show_facts(bad[0][1]), goes_to(bad[0][0]))
     elif not tested:
         d = "no test whether the parameter's name is a key of the path-variable map (contains_key / get)"
     ctx.check(R, "vnp:query-name-clashing-with-path-variable-refused", not bad and tested and bool(refusing), d, vnp)
-    # Ok only when the loop is exhausted
-    ctx.check(R, "vnp:Ok-only-after-all-parameters", bool(oks) and all(vnp.edge_dominates(nsw, n_none, b) for b in oks), "Ok(()) is dominated by the None edge of the parameter iterator", vnp)
+    # Ok only when every parameter was accepted
+    if loops:
+        ctx.check(R, "vnp:Ok-only-after-all-parameters", bool(oks) and all(vnp.edge_dominates(nsw, n_none, b) for b in oks), "Ok(()) is dominated by the None edge of the parameter iterator", vnp)
+    else:
+        # try_for_each (std): applies the closure to the elements in order, returns the first Err as it is and Ok(()) when there was none.
+        # validate_named_parameters must answer with that value: return it unchanged, or return Ok only on its Ok edge.
+        rets = sources(vnp, {"l": 0, "p": []}, VP)
+        as_is = bool(rets) and all(q.call() is not None and q.call()[2] is ft and not q.path for q in rets)
+        okf = as_is
+        d = "validate_named_parameters returns the result of try_for_each(per-parameter check) unchanged: %s" % as_is
+        if not as_is:
+            sp = result_split(vnp, ft["dest"]["l"])
+            oks = ok_return_blocks(vnp)
+            okf = sp is not None and bool(oks) and all(vnp.edge_dominates(sp["switch_bb"], sp["ok"], b) for b in oks) and not any(b in vnp.reachable(sp["err"]) for b in oks)
+            d = "Ok(()) is returned only on the Ok edge of try_for_each(per-parameter check)'s result: %s" % okf
+        ctx.check(R, "vnp:Ok-only-after-all-parameters", okf, d, (vnp, fbb))
 
 
 # --------------------------------------------------------------------------- R5b
@@ -1148,11 +1348,44 @@ def r6_tag_policy(ctx):
     def s_same_iter(it, argv, t):
         return _iter_of(it, argv[0])
 
+    def s_index(it, argv, t):
+        # `list[i]` with a concrete position (what Iterator::position returned): a reference to that element; out of range panics
+        v = it.deref_all(argv[0])
+        i = it.deref_all(argv[1])
+        if v is None or v[0] != "vec" or i is None or i[0] != "int":
+            raise A.LeavesFragment("index(%s, %s)" % (v[0] if v else None, i[0] if i else None))
+        if not 0 <= i[1] < len(v[1]):
+            raise A.LeavesFragment("index %d out of range of a list of %d: the code panics" % (i[1], len(v[1])))
+        return A.V_ref(A.Cell(v[1][i[1]]))
+
+    def s_get_at(it, argv, t):
+        # slice::get / Vec::get with a concrete position
+        v = it.deref_all(argv[0])
+        i = it.deref_all(argv[1])
+        if v is None or v[0] != "vec" or i is None or i[0] != "int":
+            raise A.LeavesFragment("get(%s, %s)" % (v[0] if v else None, i[0] if i else None))
+        return A.V_some(A.V_ref(A.Cell(v[1][i[1]]))) if 0 <= i[1] < len(v[1]) else A.V_none()
+
+    def s_first(it, argv, t):
+        v = it.deref_all(argv[0])
+        if v is None or v[0] != "vec":
+            raise A.LeavesFragment("first() of a non-list")
+        return A.V_some(A.V_ref(A.Cell(v[1][0]))) if v[1] else A.V_none()
+
+    def s_as_slice(it, argv, t):
+        v = it.deref_all(argv[0])
+        if v is None or v[0] != "vec":
+            raise A.LeavesFragment("as_slice() of a non-list")
+        return argv[0]
+
     summ = {
         "std::iter::Iterator::find": s_find, "std::iter::Iterator::position": s_position, "std::iter::Iterator::any": s_any, "std::iter::Iterator::all": s_all,
         "std::iter::Iterator::filter": s_filter, "std::iter::Iterator::count": s_count, "std::iter::Iterator::by_ref": s_same_iter,
         "std::iter::Iterator::peekable": s_same_iter, "std::iter::Iterator::fuse": s_same_iter,
         "std::vec::Vec::<T, A>::len": s_len, "std::vec::Vec::<T, A>::is_empty": s_is_empty,
+        "core::slice::<impl [T]>::len": s_len, "core::slice::<impl [T]>::is_empty": s_is_empty,
+        "std::ops::Index::index": s_index, "core::slice::<impl [T]>::get": s_get_at, "core::slice::<impl [T]>::first": s_first,
+        "std::vec::Vec::<T, A>::as_slice": s_as_slice,
         "std::iter::IntoIterator::into_iter": s_into_iter, "core::slice::<impl [T]>::iter": s_into_iter, "std::vec::Vec::<T, A>::iter": s_into_iter,
         "std::iter::Iterator::next": s_next,
         "std::collections::HashMap::<K, V, S, A>::contains_key": s_contains, "std::collections::HashMap::<K, V, S, A>::get": s_get,
@@ -1382,7 +1615,65 @@ SELFTEST = [
     {"name": 'validation-chain-recovers-from-error', "kind": "mutant", "expect": ['C02.R1'],
      "edits": [(AD, _THREE_VALIDATIONS, '            s.validate_tags(&e)\n                .or_else(|_| s.validate_path_parameters(&e))\n                .and_then(|()| s.validate_named_parameters(&e))?;\n')],
      "why": 'the three validations chained with combinators, but or_else instead of and_then: an endpoint violating the tag policy is registered when its path parameters are fine'},
+    # ---- breaking changes written in the round-3 idioms (a benign refactoring of the corpus + one edit that breaks the property in the refactored text)
+    {"name": 'enumerate-walk-wildcard-off-by-one', "kind": "mutant", "expect": ['C02.R2'], "patch": "benign/C02-R10/patch.diff",
+     "edits": [(RT, "if index + 1 < nsegments {", "if index + 2 < nsegments {")],
+     "why": 'the trie walk as `for (index, seg) in segments.into_iter().enumerate()` with per-kind child methods; the "segments follow the wildcard" test is off by one, so one trailing segment after a wildcard is accepted'},
+    {"name": 'enumerate-walk-wildcard-arm-accepted', "kind": "mutant", "expect": ['C02.R2'], "patch": "benign/C02-R10/patch.diff",
+     "edits": [(RT, '            HttpRouterEdges::VariableRest(varname, _) => panic!(\n                "URI path \\"{}\\": attempted to register route for \\\n                 variable path segment (variable name: \\"{}\\") \\\n                 when a route already exists for the remainder of \\\n                 the path as {}",\n                path, new_varname, varname,\n            ),\n',
+                '            HttpRouterEdges::VariableRest(_, child) => child,\n')],
+     "why": 'in the extracted HttpRouterNode::variable_child an existing wildcard edge is descended into for a single-segment variable'},
+    {"name": 'walk-helper-last-segment-test-always-true', "kind": "mutant", "expect": ['C02.R2'], "patch": "benign/C01-R10/patch.diff",
+     "edits": [(RT, "let is_last_segment = index + 1 == segment_count;", "let is_last_segment = index + 1 <= segment_count;")],
+     "why": 'the walk extracted into node_for_route_mut (too large to be inlined); its named flag `is_last_segment` is true for every position, so segments after a wildcard are accepted'},
+    {"name": 'walk-helper-template-is-not-the-endpoint-path', "kind": "mutant", "expect": ['C02.R2'], "patch": "benign/C01-R10/patch.diff",
+     "edits": [(RT, "let node = Self::node_for_route_mut(&mut self.root, path.as_str());", "let node = Self::node_for_route_mut(&mut self.root, endpoint.operation_id.as_str());")],
+     "why": 'insert hands the walk helper another string than the endpoint path as the template'},
+    {"name": 'conflict-helper-skips-first-handler', "kind": "mutant", "expect": ['C02.R4'], "patch": "benign/C05-R10/patch.diff",
+     "edits": [(RT, "    for handler in registered {\n", "    for handler in registered.iter().skip(1) {\n")],
+     "why": 'the conflict loop extracted into assert_no_version_conflict(&[ApiEndpoint], ..) tests all registered handlers except the first'},
+    {"name": 'conflict-helper-guard-inverted', "kind": "mutant", "expect": ['C02.R4'], "patch": "benign/C05-R10/patch.diff",
+     "edits": [(RT, "        if !handler.versions.overlaps_with(new_versions) {\n            continue;", "        if handler.versions.overlaps_with(new_versions) {\n            continue;")],
+     "why": 'guard-clause form of the conflict loop with the guard inverted: overlapping handlers are skipped, disjoint ones refused'},
+    {"name": 'per-parameter-fn-accepts-query-clash', "kind": "mutant", "expect": ['C02.R5'], "patch": "benign/C02-R11/patch.diff",
+     "edits": [(AD, "        if path_segments.contains_key(name) {\n            return Err(format!(", "        if false {\n            return Err(format!(")],
+     "why": 'the loop body as a free fn driven by try_for_each; the query/path name clash is no longer refused'},
+    {"name": 'per-parameter-fn-wildcard-checked-as-scalar', "kind": "mutant", "expect": ['C02.R5'], "patch": "benign/C02-R11/patch.diff",
+     "edits": [(AD, "                type_is_string_enum(operation_id, name, schema, dependencies)", "                type_is_scalar(operation_id, name, schema, dependencies)")],
+     "why": 'in the try_for_each form the type check whose result is the closure\'s verdict is the scalar check for wildcard variables'},
+    {"name": 'per-parameter-results-discarded', "kind": "mutant", "expect": ['C02.R5'], "patch": "benign/C02-R11/patch.diff",
+     "edits": [(AD, "        e.parameters.iter().try_for_each(|param| {\n            validate_named_parameter(&e.operation_id, param, &path_segments)\n        })\n",
+                "        e.parameters.iter().for_each(|param| {\n            let _ = validate_named_parameter(&e.operation_id, param, &path_segments);\n        });\n        Ok(())\n")],
+     "why": 'try_for_each replaced by for_each: every parameter is still checked but the verdicts are thrown away'},
+    {"name": 'shared-template-parser-drops-wildcards', "kind": "mutant", "expect": ['C02.R5'], "patch": "benign/C02-R11/patch.diff",
+     "edits": [(AD, "            PathSegment::VarnameWildcard(v) => {\n                variables.push((v, PathVariableKind::Wildcard))\n            }\n", "            PathSegment::VarnameWildcard(_) => (),\n")],
+     "why": 'the shared path_variables() helper (loop pushing (name, kind) pairs, collected into the set and the map) leaves out wildcard variables'},
+    {"name": 'shared-template-iterator-one-kind-only', "kind": "mutant", "expect": ['C02.R5'], "patch": "benign/C01-R11/patch.diff",
+     "edits": [(AD, "            PathSegment::VarnameWildcard(v) => {\n                Some((v, SegmentOrWildcard::Wildcard))\n            }\n", "            PathSegment::VarnameWildcard(v) => {\n                Some((v, SegmentOrWildcard::Segment))\n            }\n")],
+     "why": 'the shared route_path_variables() iterator records wildcard variables as single-segment ones, so their parameters are checked as scalars'},
+    {"name": 'tag-policy-method-exactly-one-accepts-zero', "kind": "mutant", "expect": ['C02.R6'], "patch": "benign/C02-R12/patch.diff",
+     "edits": [(AD, '(ntags != 1).then_some("Exactly one tag is required")', '(ntags > 1).then_some("Exactly one tag is required")')],
+     "why": 'the policy as EndpointTagPolicy::violated_by with bool::then_some; ExactlyOne accepts an endpoint without tags'},
+    {"name": 'unknown-tag-position-search-inverted', "kind": "mutant", "expect": ['C02.R6'], "patch": "benign/C02-R12/patch.diff",
+     "edits": [(AD, "e.tags.iter().position(|tag| !known_tags.contains_key(tag))", "e.tags.iter().position(|tag| known_tags.contains_key(tag))")],
+     "why": 'the unknown-tag scan as Iterator::position + map_or, reporting the first configured tag'},
     # ---------------------------------------------------------------- benign variants
+    {"name": 'benign-walk-over-enumerated-segments', "kind": "benign",
+     "edits": [(RT, "        let mut all_segments = all_segments.into_iter();\n", "        let nsegments = all_segments.len();\n"),
+               (RT, "while let Some(raw_segment) = all_segments.next() {", "for (index, raw_segment) in all_segments.into_iter().enumerate() {"),
+               (RT, "if all_segments.next().is_some() {", "let is_last = index + 1 == nsegments;\n                    if !is_last {")],
+     "why": 'behaviour-preserving: the manually advanced iterator with a look-ahead next() written as a for loop over enumerate(), the "segments follow the wildcard" test as the position of the element against the number of segments (named flag, negated)'},
+    {"name": 'benign-conflict-loop-over-slice', "kind": "benign",
+     "edits": [(RT, "for handler in existing_handlers.iter() {", "for handler in existing_handlers.as_slice() {")],
+     "why": 'behaviour-preserving: the handler list iterated through Vec::as_slice'},
+    {"name": 'benign-template-set-through-pairs', "kind": "benign",
+     "edits": [(AD, "                PathSegment::VarnameSegment(v) => Some(v),\n                PathSegment::VarnameWildcard(v) => Some(v),\n                PathSegment::Literal(_) => None,\n            })\n            .collect::<HashSet<_>>();",
+                "                PathSegment::VarnameSegment(v) => Some((v, false)),\n                PathSegment::VarnameWildcard(v) => Some((v, true)),\n                PathSegment::Literal(_) => None,\n            })\n            .map(|(name, _is_wildcard)| name)\n            .collect::<HashSet<_>>();")],
+     "why": 'behaviour-preserving: the filter_map yields (name, kind) pairs and a map stage projects the name before the collect'},
+    {"name": 'benign-unknown-tag-scan-as-position', "kind": "benign",
+     "edits": [(AD, '            for tag in &e.tags {\n                if !self.tag_config.tags.contains_key(tag) {\n                    return Err(format!("Invalid tag: {}", tag));\n                }\n            }\n',
+                '            let first_unknown = e.tags.iter().position(|tag| !self.tag_config.tags.contains_key(tag));\n            return first_unknown.map_or(Ok(()), |at| Err(format!("Invalid tag: {}", e.tags[at])));\n')],
+     "why": 'behaviour-preserving: the for loop with early return written as Iterator::position + Option::map_or + indexing'},
     {"name": "benign-negated-equality", "kind": "benign",
      "edits": [(RT, "if *new_varname != *varname {\n                                // Don't allow people", "if !(*new_varname == *varname) {\n                                // Don't allow people")],
      "why": "behaviour-preserving: a != b written as !(a == b)"},
